@@ -447,6 +447,40 @@ func (g *gen) records(n int) []rec {
 	return rs
 }
 
+// tiers: 2..3 tiers of adjacent (sometimes spaced) priority values, boundary weights, the
+// lowest tier often drained (all weights 0), few targets so that ties are decided both ways
+func (g *gen) tiers() []rec {
+	base := []uint16{0, 1, 9, 255, 256, 65532}[g.r.Intn(6)]
+	nt := 2 + g.r.Intn(2)
+	names := []string{"a.svc.", "b.svc.", "m.svc.", "z.svc.", "backup-1.svc.", "primary-1.svc."}
+	bw := []uint16{0, 65535, 65534, 1, 65535, 0, 32768, 2}
+	drained := g.r.Bool()
+	var rs []rec
+	p := base
+	for t := 0; t < nt; t++ {
+		for k := 1 + g.r.Intn(3); k > 0; k-- {
+			w := bw[g.r.Intn(len(bw))]
+			if g.r.Chance(1, 6) {
+				w = uint16(g.r.Intn(65536))
+			}
+			if t == 0 && drained {
+				w = 0
+			}
+			rs = append(rs, rec{names[g.r.Intn(len(names))], ports[g.r.Intn(3)], p, w})
+		}
+		if g.r.Chance(1, 5) {
+			p += 2
+		} else {
+			p++
+		}
+	}
+	for i := len(rs) - 1; i > 0; i-- { // any order of the answer
+		j := g.r.Intn(i + 1)
+		rs[i], rs[j] = rs[j], rs[i]
+	}
+	return rs
+}
+
 func (g *gen) bigRecords(n int) []rec {
 	rs := make([]rec, n)
 	mode := g.r.Intn(4)
@@ -602,14 +636,16 @@ func main() {
 	for n := 1; n <= maxLen; n++ {
 		enum(nil, n)
 	}
-	// records: priority in {0,1}, weight in {0,1,2,101}, target in {a,b} on one port
+	// records: priority in {0,1}, weight in {0,1,2,101,65534,65535} (thorough, 3 records:
+	// {0,1,101,65535}), target in {a,b} on one port
 	type opt struct {
 		p, w uint16
 		t    string
 	}
 	var opts []opt
+	exWeights := []uint16{0, 1, 2, 101, 65534, 65535}
 	for _, p := range []uint16{0, 1} {
-		for _, wt := range []uint16{0, 1, 2, 101} {
+		for _, wt := range exWeights {
 			for _, t := range []string{"a.", "b."} {
 				opts = append(opts, opt{p, wt, t})
 			}
@@ -630,8 +666,59 @@ func main() {
 		}
 	}
 	for n := 1; n <= maxRec; n++ {
+		if n == 3 {
+			opts = opts[:0]
+			for _, p := range []uint16{0, 1} {
+				for _, wt := range []uint16{0, 1, 101, 65535} {
+					for _, t := range []string{"a.", "b."} {
+						opts = append(opts, opt{p, wt, t})
+					}
+				}
+			}
+		}
 		enumR(nil, n)
 	}
+
+	// ---- 2b. priority tiers at the boundaries (deterministic enumeration) ----
+	// a lowest tier whose records all have weight 0 (or all but one) next to a tier of the
+	// following priority value (or the one after) with weight 65535 / 65534 / 1 / 0, the
+	// higher tier's target sorting before, after, or being the same target on a lower /
+	// higher port, records given in both orders: whatever order a sort key induces among
+	// (p, 0) and (p+1, 65535), only the tier of the lowest priority value may be returned
+	nTiers := 0
+	for _, p := range []uint16{0, 7, 65533} {
+		for _, gap := range []uint16{1, 2} {
+			for _, low := range [][]uint16{{0}, {0, 0}, {0, 1}} {
+				for _, hw := range []uint16{65535, 65534, 1, 0} {
+					for hk := 0; hk < 4; hk++ {
+						var lows []rec
+						for i, x := range low {
+							lows = append(lows, rec{fmt.Sprintf("m%d.svc.", i), 80, p, x})
+						}
+						high := rec{"a.svc.", 80, p + gap, hw}
+						switch hk {
+						case 1:
+							high.Target = "z.svc."
+						case 2:
+							high.Target, high.Port = "m0.svc.", 79
+						case 3:
+							high.Target, high.Port = "m0.svc.", 81
+						}
+						g.resolveCase("http", append(append([]rec(nil), lows...), high), "tiers")
+						g.resolveCase("http", append([]rec{high}, lows...), "tiers")
+						nTiers += 2
+					}
+				}
+			}
+		}
+	}
+	// the same through the real subscriber: a drained primary tier next to a standby at full weight
+	drained := []rec{{"primary-1.svc.", 8080, 10, 0}, {"primary-2.svc.", 8080, 10, 0}, {"backup-1.svc.", 9090, 11, 65535}}
+	alive := []rec{{"primary-1.svc.", 8080, 10, 1}, {"primary-2.svc.", 8080, 10, 0}, {"backup-1.svc.", 9090, 11, 65535}}
+	g.resolveCase("http", drained, "tiers")
+	g.resolveCase("http", alive, "tiers")
+	g.histCase("http", []event{okL(alive), rd, okL(drained), rd, okL(alive), rd}, "tiers")
+	g.histCase("", []event{okL(drained), rd, badL(alive), rd, okL(two), rd, okL(drained), rd}, "tiers")
 
 	// ---- 3. structured random ----
 	for i := 0; i < 700*mult; i++ {
@@ -679,6 +766,14 @@ func main() {
 		}
 		g.histCase("", evs, "malformed")
 	}
+
+	// ---- 5. random priority tiers (last, so that the streams above keep their inputs) ----
+	for i := 0; i < 150*mult; i++ {
+		g.resolveCase("http", g.tiers(), "random-tiers")
+	}
+	for i := 0; i < 20*mult; i++ {
+		g.histCase("http", []event{okL(g.tiers()), rd, okL(g.tiers()), rd}, "random-tiers")
+	}
 	w.Meta["refresh_watchdog_timeouts"] = refreshTimeouts
-	w.Close(fmt.Sprintf("corpus (30 weight vectors, 26 record sets incl. 100..1000 records, IPv6 and non-UTF-8 targets, 13 histories); exhaustive: compact/normalize/gcd on all vectors over {0,1,2,3,50,100,101,65535} of length 1..%d and resolve on all record lists of length 1..%d over priority {0,1} x weight {0,1,2,101} x target {a,b}; random: weight vectors (1..130, some 101..1000), record sets (duplicate targets, priorities 0..3 / 65535, ports 0..65535), histories of up to 14 events (successful / failing lookups with and without records, reads, callers scribbling over returned slices) through NewDetailedWithScheme with a scripted lookup; malformed: arbitrary byte targets, odd schemes, nil answers. nontrivial = compact changes the weights / several priorities or weights / a failed refresh after a success or a scribble", maxLen, maxRec), true)
+	w.Close(fmt.Sprintf("corpus (30 weight vectors, 26 record sets incl. 100..1000 records, IPv6 and non-UTF-8 targets, 13 histories); exhaustive: compact/normalize/gcd on all vectors over {0,1,2,3,50,100,101,65535} of length 1..%d and resolve on all record lists of length 1..%d over priority {0,1} x weight {0,1,2,101,65534,65535} (3 records: {0,1,101,65535}) x target {a,b}; priority tiers at the boundaries: %d record sets (priority p / p+1 / p+2 for p in {0,7,65533}, lowest tier weights {0},{0,0},{0,1}, next tier weight 65535/65534/1/0 with its target sorting before / after / equal on another port, both input orders) and 2 histories with a drained lowest tier, plus random tiers (adjacent priorities, boundary weights); random: weight vectors (1..130, some 101..1000), record sets (duplicate targets, priorities 0..3 / 65535, ports 0..65535), histories of up to 14 events (successful / failing lookups with and without records, reads, callers scribbling over returned slices) through NewDetailedWithScheme with a scripted lookup; malformed: arbitrary byte targets, odd schemes, nil answers. nontrivial = compact changes the weights / several priorities or weights / a failed refresh after a success or a scribble", maxLen, maxRec, nTiers), true)
 }
